@@ -8,6 +8,7 @@ S = 1
 ALPHA = {
     "user_u1": [["send", S, "USER u1"]], "user_u2": [["send", S, "USER u2"]], "user_no": [["send", S, "USER nobody"]],
     "user_anon": [["send", S, "USER anonymous"]], "pass_ok": [["send", S, "PASS pw1"]], "pass_bad": [["send", S, "PASS nope"]],
+    "pass_prefix": [["send", S, "PASS pw"]], "pass_longer": [["send", S, "PASS pw1x"]], "pass_empty": [["send", S, "PASS"]], "pass_case": [["send", S, "PASS PW1"]],
     "pwd": [["send", S, "PWD"]], "cwd": [["send", S, "CWD d"]], "cdup": [["send", S, "CDUP"]], "mkd": [["send", S, "MKD zz"]],
     "rmd": [["send", S, "RMD d/e"]], "dele": [["send", S, "DELE f"]], "mlst": [["send", S, "MLST f"]],
     "rnfr": [["send", S, "RNFR f"]], "rnto": [["send", S, "RNTO y"]], "rest": [["send", S, "REST 1"]],
@@ -36,7 +37,7 @@ def families(tier, rng):
     n3 = 1500 if tier == "quick" else 24000
     seqs += [tuple(rng.choice(KEYS) for _ in range(3)) for _ in range(n3)]
     # histories built around login state changes
-    logins = ["user_u1", "user_u2", "user_no", "user_anon", "pass_ok", "pass_bad"]
+    logins = ["user_u1", "user_u2", "user_no", "user_anon", "pass_ok", "pass_bad", "pass_prefix", "pass_longer", "pass_empty", "pass_case"]
     others = [k for k in KEYS if k not in logins]
     n4 = 1500 if tier == "quick" else 24000
     for _ in range(n4):
